@@ -3,11 +3,12 @@
 # usage: [VERIF_REPO=<scratch copy of /repo>] tools/seeded_regress.sh   (default: /repo itself, patched and reverted one at a time)
 R=${VERIF_REPO:-/repo}
 cd "$(dirname "$0")/.."
+V=$(pwd)
 pass=0; fail=0
 for d in seeded/*/; do
   n=$(basename $d)
   prop=$(python3 -c "import json;print(json.load(open('$d/meta.json'))['property'])")
-  git -C $R apply $d/patch.diff || { echo "$n APPLY-FAILED"; continue; }
+  git -C $R apply $V/$d/patch.diff || { echo "$n APPLY-FAILED"; continue; }
   VERIF_REPO=$R python3 check.py $prop --tier quick > /tmp/regress_$n.out 2>&1; rc=$?
   git -C $R checkout -- .
   cls=$(grep -m1 "class=" /tmp/regress_$n.out | sed 's/ detail=.*//')
